@@ -375,6 +375,105 @@ func checkC16(w *World, r *Report) {
 	r.Rule("R16.12", "a value lies in a multi-part range iff some part holds it: integer, uinteger and decimal64 Validate ask every part of the effective range in turn and stop only at one that accepts", 3)
 	r.guard("R16.12", func() { partsScan(w, r, "R16.12") })
 
+	r.Rule("R16.13", "the value space of an identityref is the list the compiler hands over: NewIdentityref stores its identity list as given (nil replaced by an empty list) — no identity is filtered out on the way (two modules may both derive an identity with the same local name)", 1)
+	r.guard("R16.13", func() {
+		f := w.SSAFunc(w.Func("schema", "NewIdentityref"))
+		if f == nil {
+			panic(undecided{"schema.NewIdentityref"})
+		}
+		var given *ssa.Parameter
+		for _, prm := range f.Params {
+			if sl, ok := prm.Type().Underlying().(*types.Slice); ok && strings.Contains(sl.Elem().String(), "Identity") {
+				given = prm
+			}
+		}
+		ids := w.Field("schema", "identityref", "identities")
+		n := 0
+		why := ""
+		var asGiven func(v ssa.Value, d int) bool
+		asGiven = func(v ssa.Value, d int) bool {
+			switch x := v.(type) {
+			case *ssa.Parameter:
+				return x == given
+			case *ssa.MakeSlice:
+				k, ok := intConstOf(x.Len)
+				return ok && k == 0
+			case *ssa.Slice:
+				// make([]T, 0): a slice of a fresh zero-length array
+				if a, ok := x.X.(*ssa.Alloc); ok {
+					if arr, ok := a.Type().Underlying().(*types.Pointer).Elem().Underlying().(*types.Array); ok && arr.Len() == 0 {
+						return true
+					}
+				}
+				return false
+			case *ssa.Phi:
+				if d > 3 {
+					return false
+				}
+				for _, e := range x.Edges {
+					if !asGiven(e, d+1) {
+						return false
+					}
+				}
+				return true
+			}
+			return false
+		}
+		for _, b := range f.Blocks {
+			for _, in := range b.Instrs {
+				st, ok := in.(*ssa.Store)
+				if !ok {
+					continue
+				}
+				fa, ok := st.Addr.(*ssa.FieldAddr)
+				if !ok || !isFieldAddrOf(fa, ids) {
+					continue
+				}
+				n++
+				if given == nil || !asGiven(st.Val, 0) {
+					why = "the list stored is `" + st.Val.String() + "`, computed from the one given"
+				}
+			}
+		}
+		if n == 0 {
+			panic(undecided{"NewIdentityref: store of the identity list"})
+		}
+		r.Check(why == "", "R16.13", "NewIdentityref keeps the list it is given", f.Pos(), "identities: ids", why+": a declared, derived identity can be missing from the type and is then rejected as a value")
+	})
+
+	r.Rule("R16.14", "the path in a rejection is written by the encoder that its readers decode: every error constructor of schema/errors.go sets Path to pathutil.Pathstr(…) of its path argument (pathutil.Makepath is its inverse; another escaping — '+' left as is — names a different value)", 8)
+	r.guard("R16.14", func() {
+		sp := w.SSAPkg("schema")
+		n := 0
+		for _, f := range allFuncs(sp) {
+			if !strings.HasSuffix(w.Fset.Position(f.Pos()).Filename, "/errors.go") {
+				continue
+			}
+			for _, b := range f.Blocks {
+				for _, in := range b.Instrs {
+					st, ok := in.(*ssa.Store)
+					if !ok {
+						continue
+					}
+					fa, ok := st.Addr.(*ssa.FieldAddr)
+					if !ok {
+						continue
+					}
+					if fv := fieldAddrVar(fa); fv == nil || fv.Name() != "Path" {
+						continue
+					}
+					n++
+					call, isCall := st.Val.(*ssa.Call)
+					good := isCall && call.Call.StaticCallee() != nil && strings.HasSuffix(call.Call.StaticCallee().String(), "pathutil.Pathstr")
+					r.Check(good, "R16.14", fmt.Sprintf("%s: Path #%d", funcKey(f), n), st.Pos(), "Path = pathutil.Pathstr(path)", "the error's Path is `"+st.Val.String()+"`, not the result of pathutil.Pathstr: a value with a '+' (a signed number one past a bound) is reported under a path that decodes to another value")
+				}
+			}
+		}
+		if n == 0 {
+			panic(undecided{"schema/errors.go: no store into Path"})
+		}
+	})
+
 	r.Rule("R16.6", "a rejection carries the path and the custom message/app-tag: every error constructor called by a Validate method receives the path parameter, and the numeric types prefer the configured message", 6)
 	r.guard("R16.6", func() {
 		for _, typ := range []string{"boolean", "decimal64", "enumeration", "integer", "uinteger", "union", "identityref"} {
